@@ -546,9 +546,16 @@ def r6(ctx: Ctx) -> None:
     # gather_boundaries: names paired by role (returned pair; the sorted source lists feeding them)
     fg = ctx.func(GEOM, "gather_boundaries")
     ret = [n for n in walk_own(fg.node) if isinstance(n, ast.Return)]
-    ctx.require(len(ret) == 1 and isinstance(ret[0].value, ast.Tuple) and len(ret[0].value.elts) == 2
-                and all(isinstance(e, ast.Name) for e in ret[0].value.elts), "gather_boundaries: does not return a pair of names")
-    ux, uy = [e.id for e in ret[0].value.elts]
+    ctx.require(len(ret) == 1, "gather_boundaries: expected one return")
+    rv = ret[0].value
+    if isinstance(rv, ast.Name):     # returned through a local: look at its only definition
+        defs__ = [n.value for n in walk_own(fg.node) if isinstance(n, ast.Assign) and len(n.targets) == 1 and isinstance(n.targets[0], ast.Name)
+                  and n.targets[0].id == rv.id]
+        if len(defs__) == 1:
+            rv = defs__[0]
+    ctx.require(isinstance(rv, ast.Tuple) and len(rv.elts) == 2 and all(isinstance(e, ast.Name) for e in rv.elts),
+                "gather_boundaries: does not return a pair of names")
+    ux, uy = [e.id for e in rv.elts]
     src = {}
     for n in walk_own(fg.node):
         if isinstance(n, ast.For) and isinstance(n.iter, ast.Call) and call_name(n.iter) == "enumerate" and isinstance(n.iter.args[0], ast.Name):
